@@ -269,8 +269,50 @@ def gen_tokens():
     return f'{len(entries)} entries, {sum(1 for e in entries if e[1] == "regex")} regexes, {len(variants)} variants'
 
 
+# --------------------------------------------------------------------------------------------
+# Legend: lsp_project.rs TOKEN_TYPE_LEGEND, *_INDEX constants, `From<LspTokenType>` match
+# --------------------------------------------------------------------------------------------
+
+def gen_legend():
+    src = read('compiler/plc2x/src/lsp_project.rs')
+    m = re.search(r'pub const TOKEN_TYPE_LEGEND: \[SemanticTokenType; (\d+)\] = \[(.*?)\];', src, re.S)
+    if not m: raise ValueError('TOKEN_TYPE_LEGEND not found')
+    legend = re.findall(r'SemanticTokenType::([A-Z_]+)', m.group(2))
+    if len(legend) != int(m.group(1)): raise ValueError('legend length mismatch')
+    consts = {k: int(v) for k, v in re.findall(r'const ([A-Z_]+_INDEX): u32 = (\d+);', src)}
+    body = src[src.index('impl From<LspTokenType> for Option<SemanticToken>'):]
+    body = body[:body.index('token_type.map(')]
+    arms = re.findall(r'TokenType::([A-Za-z0-9]+) => (None|Some\(([A-Z_]+)\)),', body)
+    if not arms: raise ValueError('no match arms found')
+    if re.search(r'\b_ =>', body): raise ValueError('wildcard arm in legend match is not supported')
+    rows = []
+    for v, val, c in arms:
+        if val == 'None': rows.append(f'  ("{v}", none)')
+        else:
+            if c not in consts: raise ValueError('unknown index constant ' + c)
+            rows.append(f'  ("{v}", some {consts[c]})')
+    # how a SemanticToken is filled from a Token (field -> expression), for the record
+    fill = re.search(r'token_type\.map\(\|token_type\| SemanticToken \{(.*?)\}\)', src, re.S)
+    fields = re.findall(r'(\w+): ([^,]+),', fill.group(1)) if fill else []
+    out = ['-- GENERATED by translator/gen_tables.py from compiler/plc2x/src/lsp_project.rs; do not edit',
+           'namespace Gen',
+           '/-- `TOKEN_TYPE_LEGEND` (lower-cased LSP names) -/',
+           'def legend : List String := [' + ', '.join(f'"{x.lower()}"' for x in legend) + ']',
+           '',
+           '/-- the `match` of `From<LspTokenType> for Option<SemanticToken>`: variant ↦ legend index -/',
+           'def legendMap : List (String × Option Nat) := [',
+           ',\n'.join(rows), ']',
+           '',
+           '/-- how the SemanticToken fields are filled (source text of the expressions) -/',
+           'def semTokFields : List (String × String) := [' + ', '.join(f'({lean_str(a)}, {lean_str(b.strip())})' for a, b in fields) + ']',
+           'end Gen']
+    write_if_changed('Legend.lean', '\n'.join(out) + '\n')
+    return f'{len(legend)} legend entries, {len(arms)} arms'
+
+
 TABLES = {
     'Tokens': gen_tokens,
+    'Legend': gen_legend,
 }
 
 
